@@ -533,6 +533,10 @@ func c08CacheCoherence(c *Ctx) {
 		for i := 0; i < st.NumFields(); i++ {
 			f := st.Field(i)
 			if !isCacheType(f.Type()) {
+				// content-addressed caches cannot go stale through a reorg, but they can still run ahead of the database
+				if ts := f.Type().String(); (strings.Contains(ts, "lru.") || strings.Contains(ts, "Cache")) && !strings.HasPrefix(o.typ, "zzVerif") {
+					c08FillAfterSuccess(c, o.pkg, o.typ, f.Name())
+				}
 				continue
 			}
 			n++
@@ -1025,6 +1029,33 @@ func c08FillAfterSuccess(c *Ctx, ownerPkg, ownerTyp, fld string) {
 				if !c08TouchesField(s, fld, []string{"Add", "Put", "Set", "Store", "ContainsOrAdd", "PeekOrAdd"}) {
 					continue
 				}
+				// no fill while the data is only *staged*: a function that writes through a batch / writer handed to it cannot know
+				// whether that batch will be committed (Simulate discards it, a commit can fail). Seeded change C03-K keeps a
+				// decoded-class cache "in step" from writeClass(w, …): a class declared by a proposal that is never finalised is
+				// served by every later reader.
+				staged := ""
+				for _, k := range sitesOf(g) {
+					nmk := ""
+					if k.Callee != nil {
+						nmk = k.Callee.Name()
+					} else if k.Method != nil {
+						nmk = k.Method.Name()
+					}
+					for _, a := range k.Args() {
+						ts := a.Type().String()
+						if (strings.HasSuffix(ts, "db.KeyValueWriter") || strings.HasSuffix(ts, "db.Batch") || strings.HasSuffix(ts, "db.IndexedBatch")) && k.Instr != s.Instr {
+							staged = nmk
+						}
+					}
+					if k.Recv != nil {
+						ts := k.Recv.Type().String()
+						if (strings.HasSuffix(ts, "db.KeyValueWriter") || strings.HasSuffix(ts, "db.Batch") || strings.HasSuffix(ts, "db.IndexedBatch")) && (nmk == "Put" || nmk == "Delete" || nmk == "DeleteRange") {
+							staged = nmk
+						}
+					}
+				}
+				c.check(staged == "", "cache-coherence", ownerTyp+"."+fld+" filled while staging in "+qname(fn), p.Pos(s.Pos()), "the cache is not filled by code that only stages writes in a batch",
+					"the cache is filled in a function that stages writes through a batch/writer it was handed ("+staged+"): when that batch is discarded (a simulated proposal, a failed commit) the cache keeps an entry the database never received")
 				d := p.mustHoldAt(s.Instr)
 				var unchecked []string
 				for _, k := range sitesOf(g) {
